@@ -161,9 +161,31 @@ func supervise(args []string) int {
 	go func() { done <- cmd.Wait() }()
 	var werr error
 	timedOut := false
-	select {
-	case werr = <-done:
-	case <-time.After(budget):
+	deadline := time.After(budget)
+	tick := time.NewTicker(5 * time.Second)
+	defer tick.Stop()
+	var firstViolation time.Time
+	stoppedAfterViolations := false
+wait:
+	for {
+		select {
+		case werr = <-done:
+			break wait
+		case <-tick.C:
+			// a check that has reported violations gets ten more minutes to finish its case list: a tree that breaks the
+			// property may also make single calls explode or never return, and the verdict is already in
+			if firstViolation.IsZero() {
+				if _, err := os.Stat(progress + ".violations"); err == nil {
+					firstViolation = time.Now()
+				}
+			} else if time.Since(firstViolation) > 10*time.Minute {
+				stoppedAfterViolations = true
+			}
+			if !stoppedAfterViolations {
+				continue
+			}
+		case <-deadline:
+		}
 		timedOut = true
 		_ = syscall.Kill(-cmd.Process.Pid, syscall.SIGQUIT)
 		select {
@@ -172,6 +194,7 @@ func supervise(args []string) int {
 			_ = syscall.Kill(-cmd.Process.Pid, syscall.SIGKILL)
 			werr = <-done
 		}
+		break wait
 	}
 	ef.Close()
 	stderr, _ := os.ReadFile(stderrPath)
@@ -219,7 +242,9 @@ func supervise(args []string) int {
 		r.ForceViolations(n)
 		r.Extra("violations_reported_before_the_check_stopped_short", n)
 	}
-	if timedOut {
+	if stoppedAfterViolations {
+		r.Extra("stopped_short", "the check was still running ten minutes after its first violation and was stopped; last cases: "+last)
+	} else if timedOut {
 		r.Inconclusive(fmt.Sprintf("check exceeded its %s watchdog; last cases: %s", budget, last))
 	} else if crashed {
 		r.Violation("process-crash", "crash", map[string]any{"exit_code": code, "last_cases_started": last, "stderr": tail, "wall_s": time.Since(start).Seconds()})
